@@ -263,15 +263,19 @@ def random_chooser(rng, switch_p=0.15):
   return ch
 
 
-def explore_bounded(run_once, bound, limit=None):
+def explore_bounded(run_once, bound, limit=None, rng=None):
   """Pre-emption-bounded exhaustive exploration.
   run_once(chooser) must build a fresh workload, execute it under the chooser and return
   the schedule log.  Yields (forced_dict, log) for every schedule with <= bound
-  pre-emptions (up to `limit` runs).  Returns whether the space was exhausted."""
-  stack = [((), 0)]
+  pre-emptions.  With a `limit` and an `rng` the frontier is sampled uniformly instead of
+  depth-first, so a truncated exploration still spreads over the whole execution."""
+  frontier = [((), 0)]
   runs = 0
-  while stack:
-    forced, npre = stack.pop()
+  while frontier:
+    if rng is not None and limit is not None:
+      k = rng.randrange(len(frontier))
+      frontier[k], frontier[-1] = frontier[-1], frontier[k]
+    forced, npre = frontier.pop()
     fd = dict((s, t) for s, t in forced)
     log = run_once(forced_chooser(fd))
     runs += 1
@@ -286,4 +290,28 @@ def explore_bounded(run_once, bound, limit=None):
           continue
         pre = 1 if (cur is not None) else 0
         if npre + pre <= bound:
-          stack.append((forced + ((step, t),), npre + pre))
+          frontier.append((forced + ((step, t),), npre + pre))
+
+
+def segment_chooser(segments):
+  """segments: list of (thread, nsteps or None=until it finishes/blocks).  Runs the threads
+  in that order; afterwards falls back to the non-pre-emptive default."""
+  state = dict(i=0, left=None)
+
+  def ch(step, enabled, cur):
+    while state['i'] < len(segments):
+      th, n = segments[state['i']]
+      if state['left'] is None:
+        state['left'] = n
+      if th in enabled and (state['left'] is None or state['left'] > 0):
+        if state['left'] is not None:
+          state['left'] -= 1
+        return th
+      if th in enabled and n is None:
+        return th
+      state['i'] += 1
+      state['left'] = None
+    if cur is not None:
+      return cur
+    return enabled[0]
+  return ch
